@@ -458,6 +458,9 @@ class Path:
             if h.seq is not None:
                 self.assume(h.seq[idx] == self.box(v))
             return v
+        ef = h.tag.get("elem_fact")
+        if ef is not None and h.seq is not None:
+            self.assume(z3.Implies(z3.And(idx >= 0, idx < z3.Length(h.seq)), ef(idx)))
         et = h.tag.get("elem")
         if et:
             test = {"bytes": PV.is_PBytes, "str": PV.is_PStr, "int": PV.is_PInt}.get(et)
